@@ -250,14 +250,23 @@ func (r *Recorder) add(e Event) error {
 		}
 		return errInjected
 	}
+	// a few bytes of UBJSON can announce 2^31 payload-free elements: such a run ends at the deadline, and what it
+	// delivered until then must not become a trace line of hundreds of megabytes
+	if len(r.Events) >= maxRecorded {
+		return nil
+	}
 	r.Events = append(r.Events, e)
 	return nil
 }
 
+const maxRecorded = 200000
+
 func (r *Recorder) OnNil() error        { return r.add(newEv("nil", "nil", nil)) }
 func (r *Recorder) OnBool(b bool) error { return r.add(newEv("bool", "bool", boolV(b))) }
 func (r *Recorder) OnString(s string) error {
-	r.held = append(r.held, heldStr{len(r.Events), s})
+	if len(r.held) < maxRecorded {
+		r.held = append(r.held, heldStr{len(r.Events), s})
+	}
 	e := newEv("str", "str", strToInts(s))
 	if r.Region != nil {
 		e.Reg = r.Region(nil, s, false)
@@ -265,7 +274,9 @@ func (r *Recorder) OnString(s string) error {
 	return r.add(e)
 }
 func (r *Recorder) OnKey(s string) error {
-	r.held = append(r.held, heldStr{len(r.Events), s})
+	if len(r.held) < maxRecorded {
+		r.held = append(r.held, heldStr{len(r.Events), s})
+	}
 	e := newEv("key", "key", strToInts(s))
 	if r.Region != nil {
 		e.Reg = r.Region(nil, s, false)
